@@ -22,6 +22,7 @@ def load(p):
 def main():
     checks = load(os.path.join(V, "tools", "checks.json"))["claimed"]
     known = load(os.path.join(V, "known_findings.json"))["findings"]
+    regression = load(os.path.join(V, "seeded", "REGRESSION.json")) or {}
     out = [BEGIN, ""]
     for pid in sorted(checks):
         c = checks[pid]
@@ -57,14 +58,21 @@ def main():
                 r = (oc.get("checks") or {}).get(pid, {})
                 if r.get("caught"):
                     own = f"caught ({r.get('replay_kind')}: `{r.get('replay_signature')}`)"
+                    fin = regression.get(f"{pid}/{os.path.basename(sd)}", {})
+                    if r.get("replay_kind") != "oracle" and fin.get("kind") == "oracle":
+                        own += f"; after strengthening with a concrete failing input (oracle: `{fin.get('signature')}`)"
                 elif r:
                     o2 = load(os.path.join(sd, "outcome_after_strengthening.json")) or {}
                     r2 = (o2.get("checks") or {}).get(pid, {})
+                    fin = regression.get(f"{pid}/{os.path.basename(sd)}", {})
                     if r2.get("caught"):
                         own = (f"missed by the first version of the check; caught after strengthening "
                                f"({r2.get('replay_kind')}: `{r2.get('replay_signature')}`)")
+                    elif fin.get("caught"):
+                        own = (f"missed by the first version of the check; reported in the final regression "
+                               f"({fin.get('kind')}: `{fin.get('signature')}`)")
                     else:
-                        own = "**missed**"
+                        own = "**not reported by this check** (see 12.5)"
                 else:
                     own = "not run"
                 others = []
